@@ -47,9 +47,12 @@ func c11Call(g EG, form string) (ans bool, abort string) {
 		}
 	}()
 	var gg graph.Graph
-	if form == "s" {
+	switch form {
+	case "s":
 		gg = g.Sparse()
-	} else {
+	case "v": // the lazy InducedSubgraph view on all vertices in a permuted order: an isomorphic graph
+		gg = graph.InducedSubgraph(g.Sparse(), rand.New(rand.NewSource(int64(g.N)*7919+int64(len(g.E)))).Perm(g.N))
+	default:
 		gg = g.Dense()
 	}
 	return graph.IsPlanar(gg), ""
@@ -909,6 +912,7 @@ func c11Judge(g EG, form string, expect int, why string, seed int64, tags map[st
 	q := r.Perm(g.N)
 	try("a relabelling", c11Relabel(g, q), form, base, true)
 	try("the same graph in the other representation", g, other, base, g.N <= 80)
+	try("the same graph seen through an InducedSubgraph view with the vertices permuted", g, "v", base, g.N <= 80)
 	// subdividing edges
 	if len(g.E) > 0 {
 		k := 1 + r.Intn(3)
